@@ -14,15 +14,15 @@ MANIFEST = {
              "model under vm_compute; the routing predicate is evaluated on the implementation after every step."),
     "technique": "Rocq proof (refinement to an abstract page map, induction over histories) + model/code correspondence on operation histories",
     "design_ref": "3 C10, 8.1",
-    "note": ("Residual, named: the schedule quantifier (senders concurrent with the receive loop) is covered on the LTS of proofs/InflightSched.v for "
+    "note": ("Connection level (segments, versions) is exercised by the `wire` sessions, proved in C15. Residual, named: the schedule quantifier (senders concurrent with the receive loop) is covered on the LTS of proofs/InflightSched.v for "
              "registration; delivery itself runs on the single receive goroutine. The release-before-deliver order is modelled as is. "
-             "v5 segment framing belongs to C15."),
+             "v5 segment framing is proved under C15; here it is exercised end to end."),
     "hooks": il.HOOKS,
 }
 
 
 def check(run):
-    broken, findings, results = il.standard(run, "C10", "c10")
+    broken, findings, results = il.standard(run, "C10", "c10", extra_subs=("wire",))
     run.coverage["rule"] = (
         "perm-k<k>-p<pages>: k managed requests outstanding, their responses of 1..3 pages delivered in every permutation of the requests "
         "(round by round), with and without interleaved responses for an unknown id, then k more sends; perm-overflow: maxPending+1 pages "
@@ -36,6 +36,10 @@ def check(run):
         "drains it) interleaved with responses. timing-paged: multi-page responses in real time, a page every 0.2-0.3 read timeouts for "
         "more than 2 timeouts (all pages must arrive, verdict timeout-early otherwise). Every call into the library runs under a watchdog: "
         "a processIncomingFrame that never returns is reported as receiver-blocked with the history and the step, the response frames "
-        "behind it as delivery-failed. "
+        "behind it as delivery-failed. wire (exercised, not proved): a real client and server connection over localhost for v3, v4, v5 (segment "
+        "framing), DSE v1, DSE v2: three outstanding requests with responses distinguishable on sight (RESULT Void with a payload tag, READY = "
+        "a frame of header only, SUPPORTED) answered in all 6 orders, an EVENT interleaved in half of the rounds, and with segment framing "
+        "the three responses coalesced into one self-contained segment (header-only frame last / first); every request must receive exactly "
+        "its own response within the read timeout, the event must arrive on the event channel. "
         "non-trivial = at least one request accepted and at least one other kind of outcome; distinct = distinct (N, maxPending, mode, ops)")
     il.verdict(run, "C10", broken, findings)
